@@ -218,7 +218,9 @@ where
     // prepare response.
     let mut size = body.size();
     let res = prepare_response(config, res.head(), &mut size);
-    let eof_or_head = size.is_eof() || head_req;
+    // a 304 response, like a response to HEAD, describes a body but never carries one
+    let eof_or_head =
+        size.is_eof() || head_req || res.status() == http::StatusCode::NOT_MODIFIED;
 
     // send response head and return on eof.
     let mut stream = tx
